@@ -11,8 +11,15 @@ import (
 // In is a list of inputs fed to ONE fresh Unwrapper in order; the value -1 means "record the complete table
 // of the current state": Unwrap(v) for all 65536 v, each on a copy of the Unwrapper, run-length encoded.
 type vfUnwrapScript struct {
-	Kind string `json:"kind"` // informational ("walk", "gen", "random", ...)
+	Kind string `json:"kind"` // informational ("walk", "gen", "random", ...); "high": see below
 	In   []int  `json:"in"`
+	// kind "high": states beyond the 32-bit range.  A fresh Unwrapper is fed 0 and then Climb times the previous input plus
+	// 32767 (the largest forward step); from the state reached, Unwrap(last input + d) is recorded on a COPY for every d of
+	// Probe, and then statefully for every d of Walk.  Rows: previous result, input, result (validated by Apalache: TLC
+	// integers are 32-bit).
+	Climb int64 `json:"climb"`
+	Probe []int `json:"probe"`
+	Walk  []int `json:"walk"`
 }
 
 type vfRun struct {
@@ -50,6 +57,28 @@ func TestVerifUnwrapExec(t *testing.T) {
 		}
 		out.Emit(vfM{"a": "reset"})
 		u := &Unwrapper{}
+		if sc.Kind == "high" {
+			v := uint16(0)
+			r := u.Unwrap(v)
+			for k := int64(0); k < sc.Climb; k++ {
+				v += 32767
+				r = u.Unwrap(v)
+			}
+			out.Emit(vfM{"a": "climb", "n": sc.Climb, "v": int(v), "r": r})
+			for _, d := range sc.Probe {
+				cp := *u
+				x := v + uint16(d) //nolint:gosec // modulo 2^16 is intended
+				out.Emit(vfM{"a": "row", "p": r, "v": int(x), "r": cp.Unwrap(x)})
+			}
+			for _, d := range sc.Walk {
+				x := v + uint16(d) //nolint:gosec
+				r2 := u.Unwrap(x)
+				out.Emit(vfM{"a": "row", "p": r, "v": int(x), "r": r2})
+				v, r = x, r2
+			}
+
+			continue
+		}
 		for _, x := range sc.In {
 			switch {
 			case x == -1:
